@@ -74,6 +74,8 @@ def handle (op : String) (args : List String) : Option String :=
       | some [o, x] => showRes showZ (Ts.timestamp_nanos o x) | _ => bad)
   | "ts.from_st", [s, n] => some (match ints? [s, n] with
       | some [s, n] => showRes showDT (Ts.from_system_time s n) | _ => bad)
+  | "ts.from_st_local", [o, s, n] => some (match ints? [o, s, n] with
+      | some [o, s, n] => showRes showZ (Ts.from_system_time_local o s n) | _ => bad)
   | "ts.to_st", [y, s, f] => some (match ints? [y, s, f] with
       | some [y, s, f] => showRes showST (Ts.to_system_time (mkDT y s f)) | _ => bad)
   | _, _ => none
